@@ -401,6 +401,7 @@ pub fn run_property(def: &PropertyDef, cfg: &RunCfg, only_sub: Option<&str>) -> 
 	let mut per_sub = serde_json::Map::new();
 	let mut exhaustive_subspaces: Vec<String> = Vec::new();
 	let mut all_exhaustive = true;
+	let mut printed_known: HashSet<String> = HashSet::new();
 	for sub in &def.subs {
 		if let Some(o) = only_sub {
 			if o != sub.name {
@@ -412,6 +413,17 @@ pub fn run_property(def: &PropertyDef, cfg: &RunCfg, only_sub: Option<&str>) -> 
 		let dt = t0.elapsed().as_secs_f64();
 		for l in &res.known_lines {
 			println!("{l}");
+		}
+		// classes named `known:<CLASS>` mark cases that hit a recorded known finding
+		for (k, n) in &res.stats.classes {
+			if let Some(class) = k.strip_prefix("known:") {
+				if let Some(line) = crate::findings::known_line(class) {
+					if printed_known.insert(line.clone()) {
+						println!("{line}");
+					}
+					eprintln!("    ({n} case(s) of sub {} hit known finding {class})", sub.name);
+				}
+			}
 		}
 		if let Some(why) = &res.inconclusive {
 			eprintln!("INCONCLUSIVE property={} sub={} {}", def.id, sub.name, why);
